@@ -59,7 +59,20 @@ func (g *Gen) freshAssume(st *State, cc *Contract, env map[string]Val) {
 		cond, expr := splitFresh(e.Expr)
 		ref := freshRefOf(g.specVal(st, expr, env), expr)
 		c := g.spec(st, cond, env)
-		fr := g.freshRef(st)
+		// the fresh object is distinct from every other known object; the result's own reference
+		// symbol is one of the known ones (results are registered when they are bound) and must be
+		// left out, or the equality below contradicts the distinctness and the rest of the path
+		// becomes vacuous
+		fr := g.newSym("ref", "Int")
+		g.assume(st, fmt.Sprintf("(> %s 0)", fr))
+		g.assume(st, fmt.Sprintf("(> %s %s)", fr, g.allocMark()))
+		for _, o := range st.refs {
+			if o != ref {
+				g.assume(st, fmt.Sprintf("(not (= %s %s))", fr, o))
+			}
+		}
+		st.refs = append(st.refs, fr)
+		st.fresh[fr] = true
 		g.assume(st, fmt.Sprintf("(=> %s (= %s %s))", c, ref, fr))
 	}
 }
